@@ -262,6 +262,8 @@ class CallMixin:
                 return (o.n if isinstance(o.n, int) else SInt(o.n, True),)
             if name in ("T",):
                 raise Unsupported("transpose of Stacked")
+            if name == "get_submap":
+                return NativeFn("batched.get_submap", lambda interp, *a, o=o: interp.call_stacked(o, list(a), {}))
             return Stacked(o.n, lambda i: self.getattr(o.at(i), name), tag="." + name)
         if isinstance(o, SymMap):
             if name == "get":
